@@ -22,10 +22,10 @@ func c19(c *Ctx) {
 	maxKeys := c.N(5, 6)
 	c.Rule = fmt.Sprintf("exhaustive: 16 value kinds x 6 predicates; every path of 1..%d keys x every subset of `?` marks x every key-state vector in {present, null, absent}^n x {IsNull, IsNotNull, IsEmpty, IsNotEmpty, IsNullOrEmpty, IsNotNullOrEmpty, no predicate}. Oracle: three-valued guard computed in the harness. Non-trivial = at least one key is null or absent; distinct by (query, data).", maxKeys)
 	type vk struct {
-		name          string
-		d             *D
-		null, empty   bool
-		emptyUnspec   bool
+		name        string
+		d           *D
+		null, empty bool
+		emptyUnspec bool
 	}
 	kinds := []vk{
 		{"null", h.Nil(), true, false, true},
@@ -46,8 +46,8 @@ func c19(c *Ctx) {
 		{"nil-slice", &D{Tag: "sl", Ety: "any", IsNil: true, Xs: []*D{}}, true, true, false},
 	}
 	preds := []struct {
-		name string
-		f    func(null, empty bool) bool
+		name      string
+		f         func(null, empty bool) bool
 		usesEmpty bool
 	}{
 		{"IsNull", func(n, e bool) bool { return n }, false},
